@@ -146,7 +146,11 @@ func cmdCheck(args []string) int {
 				}
 				perLabel[vk]++
 				perLabel[key]++
-				cases = append(cases, nativeCase{Harness: r.Cfg.Func, Vec: v.Vec, Tier: tier, Sched: schedOf(v.Decisions)})
+				nc := nativeCase{Harness: r.Cfg.Func, Vec: v.Vec, Tier: tier, Sched: schedOf(v.Decisions)}
+				if len(nc.Sched) > 0 {
+					nc.Attempts = 400
+				}
+				cases = append(cases, nc)
 				refs = append(refs, ref{res: r, viol: v})
 			}
 			for k := range r.Ex.valCases {
@@ -400,7 +404,7 @@ func writeEvidence(ps *propSpec, tier int, seed int64, results []*harnessResult,
 		}
 		bounds = append(bounds, r.Cfg.Func+": "+b)
 		perHarness = append(perHarness, map[string]interface{}{
-			"harness": r.Cfg.Pkg + "." + r.Cfg.Func, "paths": ex.paths, "completed": ex.completed, "infeasible_assumption_paths": ex.infeasible,
+			"harness": r.Cfg.Pkg + "." + r.Cfg.Func, "paths": ex.paths, "completed": ex.completed, "infeasible_assumption_paths": ex.infeasible, "schedules_pruned_by_sleep_sets": ex.pruned,
 			"obligations": ex.obligations, "discharged": ex.discharged, "queries": ex.queries, "solver_time_s": round2(ex.solverTime.Seconds()),
 			"wall_s": round2(r.Wall.Seconds()), "max_decision_depth": ex.maxDecisions, "labels_reached": ex.reached, "bound": b,
 			"known_finding_hits": r.KnownHits, "engine_mismatches": r.Mismatches,
